@@ -411,6 +411,7 @@ COMMON_ASSUMPTIONS = [
 ]
 ASSUMPTIONS = {}
 RULES = {
+    "C07": "case = (value type float|double|long double|complex|2x2 block or backend block_crs|builtin_hybrid|Eigen, shape incl. 0 rows, rectangular, sizes not divisible by the block size, coefficients in {0,1,-1,2,-3}, output poisoned with NaN/+Inf/-Inf wherever its coefficient is zero, nt 1..32, schedule); primitives spmv, residual, axpby, axpbypcz, vmul, lin_comb, copy, clear, inner_product (conjugate-linear in the second argument), scalar vectors in place of block vectors; integer-valued data so that the formula is exact in every type and equality is exact; non-trivial = n>=1; distinct by hash(seeds, type, shape, nt, coefficients)",
     "C08": "case = (kernel in transpose|product|sum|scale+sort_rows|diagonal|pointwise_matrix|copy/convert constructors|gershgorin|power method|complex transpose+product, shapes incl. 0 rows / empty rows / rectangular, integer-valued entries so that the dense model is exact, sorted or unsorted rows where permitted, nt 1..32 (<=16 marker-based, >=17 row-merge SpGEMM; every static chunking), schedule strategy); oracle: dense exact model, well-formed CRS, no duplicates for sorted inputs, Gershgorin >= rho(A) and power estimate <= sigma_max via Eigen (n<=60); non-trivial = >=2 rows; distinct by hash(matrix seed, shapes, kernel, nt, flags)",
     "C03": "script = construct amg<recorder<coarsening>, recording spai0> (4 coarsenings, eps_strong/over_interp/relax/trunc/block_size varied, coarse_enough 1..3000, max_levels, direct_coarse, nt in {1,2,5,16 | 17,24,32} i.e. both SpGEMM algorithms) on a generated square matrix, then 1..8 rebuild() calls with perturbed / power-of-two scaled / sign-flipped / stronger-diagonal / original matrices and wrong-sized ones; invariants per level: A_c = R*A*P*float(1/over_interp) against a dense long-double model with an entrywise rounding bound, R = P^T bitwise (not emin), sizes strictly decrease, coarsest level direct iff <= coarse_enough and direct_coarse; per rebuild: P/R unchanged, coarse operators Galerkin again, action on probe vectors bitwise equal to a fresh amg<replayer<coarsening>> built from A' with the recorded P/R, rebuild(A0) restores the original action; non-trivial = >=2 levels and >=1 rebuild that changes the matrix; distinct by hash(matrix, configuration, script, SpGEMM algorithm)",
     "C15": "script = 2..12 operations on ONE solver object (make_solver<amg|relaxation, run-time solver>, all 9 solver types, both preconditioning sides, restart lengths 2..30) out of solve / solve with alternative matrix / precond.apply / rebuild and failing variants (zero, NaN, Inf, overflowing right-hand sides or guesses, zero alternative matrix, maxiter 1..4, preconditioner wrapper that throws / writes NaN / writes Inf at its k-th call); model: a freshly constructed object (rebuilds replayed) executes the same single operation, results compared bitwise incl. exception type; non-trivial = >=2 operations; distinct by hash(matrix, script, configuration)",
